@@ -69,6 +69,8 @@ def sort_case(draw, tier, max_records=60, force_all_ref=None):
         if draw(st.integers(0, 6)) == 0:
             rec["strand"] = "-"
         k_ = draw(st.integers(0, 9))
+        if k_ == 4:
+            rec["name"] = "#%d/ccs" % i  # not a comment: GAF has no comment lines, column 1 is any printable string
         if k_ == 0:
             rec["name"] += " len=300 mean_q=14.2"  # GraphAligner copies the whole FASTQ header
         elif k_ == 1:
